@@ -1,4 +1,6 @@
-CONSTANTS MaxLen = 5
+CONSTANTS
+  MaxLen = 5
+  Kinds = {"flip", "toggle", "get"}
 SPECIFICATION Spec
 INVARIANT Emit
 CHECK_DEADLOCK FALSE
